@@ -27,7 +27,7 @@ import parse_depth as T  # noqa: E402
 
 PID = "C10"
 
-MANIFEST = {
+_MANIFEST_PENDING = {
     "category": "other",
     "technique": "Coq proof of span arithmetic and parser depth accounting + translator + correspondence at the depth cap + hostile-input search on the real parser",
     "text": "Proved (all inputs / all derivation trees): spans built from lexer locations end inside the parsed buffer, at most the "
